@@ -2325,7 +2325,7 @@ def run(ctx):
                            "C06-F2 (db690ec): if condition checked against bool",
                            "C06-F3 (d05f979): private fields no longer visible in a same-named class of another module"],
         "pending": ["the inference engine that decides where `any` placeholders arise (hints, lambda parameter inference) is not modelled",
-                    "memoised super-type walk: absence of duplicates in the collected list and set-equality with the un-memoised walk are not proved (tied exactly by the supm stream); the model's recursion budget (declarations + 2) is shown sufficient only by the driver's exhaustion flag, a fuel-free (well-founded) definition is not given",
+                    "memoised super-type walk: set-equality of its collected list with the un-memoised walk's is not proved (tied exactly by the supm stream); the model's recursion budget (declarations + 2) is shown sufficient only by the driver's exhaustion flag, a fuel-free (well-founded) definition is not given",
                     "position dimension (a violation is rejected in whatever expression context it occurs) has no Lean statement: the contexts act through the hint / synthesis machinery of the inference engine, which is not modelled; covered by the pos family (C07's 36 contexts, C13's generic-argument family) only",
                     "cycle_detected (un-memoised walk, the code before 8144d53c) is fuel-indexed; kept for the historical variant only",
                     "gate kernels other than sup are tied by whole-program verdicts, not by function-level hooks",
